@@ -36,6 +36,11 @@ pub fn shapes(thorough: bool) -> Vec<Shape> {
     add("via-callback", 2, "([n] via (x => f(x + 1)))[0]", "if n == 0 then 0 else ([n] via (x => 1 + f(x - 1)))[0]", "300.0");
     add("where-callback", 2, "([n] where (x => f(x + 1)))", "if n == 0 then true else len([n] where (x => f(x - 1))) == 1", "true");
     add("into-callback", 2, "(n into (x => f(x + 1)))", "if n == 0 then 0 else (n into (x => 1 + f(x - 1)))", "300.0");
+    // the recursive function handed to the operator by name: no call expression anywhere in the cycle
+    add("via-direct", 1, "((n + 1) via f)", "if n == 0 then 0 else 1 + ((n - 1) via f)", "300.0");
+    add("via-list-direct", 1, "([n + 1] via f)[0]", "if n == 0 then 0 else 1 + ([n - 1] via f)[0]", "300.0");
+    add("into-direct", 1, "((n + 1) into f)", "if n == 0 then 0 else 1 + ((n - 1) into f)", "300.0");
+    add("where-direct", 1, "([n + 1] where f)", "if n == 0 then true else len([n - 1] where f) == 1", "true");
     add("map-callback", 4, "map([n], x => f(x + 1))[0]", "if n == 0 then 0 else map([n], x => 1 + f(x - 1))[0]", "300.0");
     add("filter-callback", 4, "filter([n], x => f(x + 1))", "if n == 0 then true else len(filter([n], x => f(x - 1))) == 1", "true");
     add("reduce-callback", 4, "reduce([n], (a, x) => f(x + 1), 0)", "if n == 0 then 0 else reduce([n], (a, x) => 1 + f(x - 1), 0)", "300.0");
@@ -55,6 +60,10 @@ pub fn shapes(thorough: bool) -> Vec<Shape> {
     v.push(Shape { name: "mutual".into(), inc: 1, defs: String::new(),
         runaway: "a = n => b(n + 1)\nb = n => a(n + 1)\na(0)".into(),
         finite: "a = n => if n == 0 then 0 else 1 + b(n - 1)\nb = n => if n == 0 then 0 else 1 + a(n - 1)\noutput r = a(300)".into(),
+        finite_value: "300.0".into(), fnames: vec!["a", "b"] });
+    v.push(Shape { name: "mutual-operators".into(), inc: 1, defs: String::new(),
+        runaway: "a = n => ((n + 1) via b)\nb = n => ((n + 1) into a)\na(0)".into(),
+        finite: "a = n => if n == 0 then 0 else 1 + ((n - 1) via b)\nb = n => if n == 0 then 0 else 1 + ((n - 1) into a)\noutput r = a(300)".into(),
         finite_value: "300.0".into(), fnames: vec!["a", "b"] });
     v
 }
